@@ -1317,6 +1317,10 @@ func (fr *Frame) cutLoop(h *ssa.BasicBlock, st *State) *State {
 	nac := Fresh("ac", SInt)
 	c.addFact(ns, Le(st.ac, nac))
 	ns.ac = nac
+	if fr.loopAc == nil {
+		fr.loopAc = map[*ssa.BasicBlock]*Term{}
+	}
+	fr.loopAc[h] = nac // allocation counter at the start of the current iteration (iterfresh)
 	// cells read as pointers must still be allocated
 	for a := range ms.cells {
 		if v, ok := ns.cells[a]; ok {
